@@ -141,6 +141,10 @@ def gen_place(rng, inflight=True):
 
 def gen_death(rng, nwatch, place=None, inflight=True):
     how = rng.choice(['exit', 'exit', 'kill', 'kill', 'sig'])
+    if rng.random() < 0.03:
+        # no death: the main thread exits, the other threads go on (the
+        # process looks like a zombie and is none)
+        how = 'leader'
     op = {'op': 'die', 'w': rng.randrange(nwatch), 'j': rng.randrange(5),
           'how': how,
           'place': place if place is not None else gen_place(rng, inflight)}
